@@ -219,7 +219,8 @@ func (r *vcReplayer) viol(prop, key, desc string, extra vhRec) bool {
 // (property names starting with "G-") take every divergence.
 //
 //	stored-lost      an accepted, unexpired bundle is gone                          C05 (C14 for same-instant submissions)
-//	stored-kept      a bundle that had to be refused (hop limit, lifetime, block)    C06; a DTLSR unicast not released: C20
+//	stored-kept      a bundle that had to be refused (hop limit, lifetime, block)    C06; a DTLSR unicast not released: C20;
+//	                 a bundle handed to a local client and not released (it will be handed over again): C07
 //	pending          not marked for retry                                            C05
 //	sends-missing    destination connected / epidemic spread / DTLSR broadcast       C05; C20 (broadcast); otherwise nobody's
 //	sends-refused    transmitted although it had to be refused                      C06
@@ -246,6 +247,8 @@ func (r *vcReplayer) rel(kind, b string) string {
 	case "stored-kept":
 		if refusable {
 			ps = []string{"C06"}
+		} else if a.Dst == "app" || a.Dst == "late" {
+			ps = []string{"C07"} // handed to the local client but not released: it will be handed over again with every retry
 		} else if algo == "dtlsr" && a.Dst != "bcast" {
 			ps = []string{"C20"}
 		}
@@ -609,6 +612,9 @@ func (r *vcReplayer) run() string {
 				}
 			}
 			r.late = true
+		case "Register":
+			w.registerLate()
+			err = w.barrier()
 		case "Restart":
 			err = w.restart()
 		case "Vector":
